@@ -344,7 +344,12 @@ def main():
     os.makedirs(a.outdir, exist_ok=True)
     common = ['// generated by verif/gen_fungible.py -- do not edit', '#pragma once', '#include "kit/typeops.h"',
               '#include <nop/traits/is_fungible.h>', '#include <nop/protocol.h>', pool.emit_decls(), pool.emit_meta(),
-              'namespace vk { struct PairTraits { bool ab, ba, aa, bb; int protocol_status; int sig_mismatch; }; }']
+              'namespace vk { struct PairTraits { bool ab, ba, aa, bb; int protocol_status; int sig_mismatch; int protocol_admits; };',
+              '// Does overload resolution admit Protocol<P>::Write(serializer, const T&) and Protocol<P>::Read(deserializer, T*)?',
+              'template <typename P, typename T, typename = void> struct ProtocolAdmits : std::false_type {};',
+              'template <typename P, typename T> struct ProtocolAdmits<P, T, std::void_t<decltype(nop::Protocol<P>::Write(std::declval<nop::Serializer<LogWriter*>*>(), std::declval<const T&>())),',
+              '    decltype(nop::Protocol<P>::Read(std::declval<nop::Deserializer<LogReader*>*>(), std::declval<T*>()))>> : std::true_type {};',
+              '}']
     write(os.path.join(a.outdir, 'fung_common.h'), '\n'.join(common) + '\n')
     # types (A and B of every pair), de-duplicated by spelling
     spell = {}
@@ -366,7 +371,7 @@ def main():
         out = ['#include "fung_common.h"', 'namespace vk {',
                '// a template so that the if-constexpr branch is really discarded when the trait is false',
                'template <typename A, typename B> static PairTraits fung_compute() {',
-               '  PairTraits t{nop::IsFungible<A, B>::value, nop::IsFungible<B, A>::value, nop::IsFungible<A, A>::value, nop::IsFungible<B, B>::value, -1, -1};',
+               '  PairTraits t{nop::IsFungible<A, B>::value, nop::IsFungible<B, A>::value, nop::IsFungible<A, A>::value, nop::IsFungible<B, B>::value, -1, -1, ProtocolAdmits<A, B>::value ? 1 : 0};',
                '  // Signatures are fungible exactly when return and argument types are (after decay); C arrays decay to',
                '  // pointers in a signature and are left out.',
                '  if constexpr (!std::is_array<A>::value && !std::is_array<B>::value) {',
@@ -382,7 +387,7 @@ def main():
                '    t.sig_mismatch = m;',
                '  }',
                '  // Protocol<A>::Write/Read admit B exactly when the trait is true (overload resolution); exercised when it is.',
-               '  if constexpr (nop::IsFungible<A, B>::value && !MetaOf<A>::kHandle) {',
+               '  if constexpr (nop::IsFungible<A, B>::value && ProtocolAdmits<A, B>::value && !MetaOf<A>::kHandle) {',
                '    Holder<B> hb; LogWriter w; nop::Serializer<LogWriter*> s{&w};',
                '    auto st1 = nop::Protocol<A>::Write(&s, hb.get());',
                '    LogReader r; r.data = w.out.data(); r.n = w.out.size(); nop::Deserializer<LogReader*> d{&r};',
